@@ -43,7 +43,16 @@ func instrList(list []ast.Stmt) []ast.Stmt {
 	out := make([]ast.Stmt, 0, 2*len(list))
 	for _, s := range list {
 		instrStmt(s)
-		if pureLocal(s) {
+		if sel, ok := s.(*ast.SelectStmt); ok && !*noSel {
+			if own := ownSelect(sel); own != nil {
+				if !*selOnly {
+					out = append(out, mark(s.Pos()))
+				}
+				out = append(out, own)
+				continue
+			}
+		}
+		if pureLocal(s) || *selOnly {
 			// the statement touches only locals of this goroutine: standing still before it is the same as
 			// standing still after it, which the next pause point covers
 			out = append(out, s)
@@ -162,6 +171,86 @@ func instrStmt(s ast.Stmt) {
 	}
 }
 
+var (
+	selOnly  = flag.Bool("selonly", false, "no pause points and no sync swap: only the selects become choice points")
+	noSel    = flag.Bool("nosel", false, "leave select statements alone")
+	selCount int
+)
+
+func sel(x, name string) ast.Expr { return &ast.SelectorExpr{X: ast.NewIdent(x), Sel: ast.NewIdent(name)} }
+
+// ownSelect makes the outcome of a blocking receive-only select with several cases a decision of the explorer where
+// the Go runtime would draw a random number: the channel operands are evaluated once (as select does), the run-time side
+// is told which of them are ready, and if it names a case, that case is polled first; otherwise (or if the poll finds
+// nothing) the original select runs. Every outcome is one the original statement can have.
+//
+//	{
+//		zzc0 := <operand 0>; zzc1 := <operand 1>; ...
+//		switch zzpause.Sel("<file>:<line>", zzpause.Rdy(zzc0), zzpause.Rdy(zzc1), ...) {
+//		case 0: select { case <-zzc0: <body 0>; default: <the original, on zzc0, zzc1, ...> }
+//		case 1: ...
+//		default: <the original, on zzc0, zzc1, ...>
+//		}
+//	}
+func ownSelect(s *ast.SelectStmt) ast.Stmt {
+	if len(s.Body.List) < 2 {
+		return nil
+	}
+	var recvs []*ast.UnaryExpr
+	for _, c := range s.Body.List {
+		cc := c.(*ast.CommClause)
+		var u *ast.UnaryExpr
+		switch m := cc.Comm.(type) {
+		case *ast.ExprStmt:
+			u, _ = m.X.(*ast.UnaryExpr)
+		case *ast.AssignStmt:
+			if len(m.Rhs) == 1 {
+				u, _ = m.Rhs[0].(*ast.UnaryExpr)
+			}
+		}
+		if u == nil || u.Op != token.ARROW {
+			return nil // default or send
+		}
+		recvs = append(recvs, u)
+	}
+	labelled := false
+	ast.Inspect(s, func(x ast.Node) bool {
+		switch x.(type) {
+		case *ast.LabeledStmt:
+			labelled = true
+		case *ast.FuncLit:
+			return false
+		}
+		return true
+	})
+	if labelled {
+		return nil
+	}
+	selCount++
+	count++
+	blk := &ast.BlockStmt{}
+	args := []ast.Expr{&ast.BasicLit{Kind: token.STRING, Value: strconv.Quote(fmt.Sprintf("%s:%d", base, fset.Position(s.Pos()).Line))}}
+	for i, u := range recvs {
+		name := fmt.Sprintf("zzc%d", i)
+		blk.List = append(blk.List, &ast.AssignStmt{Lhs: []ast.Expr{ast.NewIdent(name)}, Tok: token.DEFINE, Rhs: []ast.Expr{u.X}})
+		u.X = ast.NewIdent(name)
+		args = append(args, &ast.CallExpr{Fun: sel("zzpause", "Rdy"), Args: []ast.Expr{ast.NewIdent(name)}})
+	}
+	sw := &ast.SwitchStmt{Tag: &ast.CallExpr{Fun: sel("zzpause", "Sel"), Args: args}, Body: &ast.BlockStmt{}}
+	for i, c := range s.Body.List {
+		cc := c.(*ast.CommClause)
+		poll := &ast.SelectStmt{Body: &ast.BlockStmt{List: []ast.Stmt{
+			&ast.CommClause{Comm: cc.Comm, Body: cc.Body},
+			&ast.CommClause{Body: []ast.Stmt{s}},
+		}}}
+		sw.Body.List = append(sw.Body.List, &ast.CaseClause{List: []ast.Expr{&ast.BasicLit{Kind: token.INT, Value: strconv.Itoa(i)}}, Body: []ast.Stmt{poll}})
+	}
+	// (the statement stays a terminating one if the original was: a switch with a default whose clauses all end in a select)
+	sw.Body.List = append(sw.Body.List, &ast.CaseClause{Body: []ast.Stmt{s}})
+	blk.List = append(blk.List, sw)
+	return blk
+}
+
 func fname(fd *ast.FuncDecl) string {
 	if fd.Recv == nil || len(fd.Recv.List) == 0 {
 		return fd.Name.Name
@@ -237,7 +326,7 @@ func main() {
 			}
 			for _, s := range gd.Specs {
 				is := s.(*ast.ImportSpec)
-				if is.Path.Value == `"sync"` && !*nosync {
+				if is.Path.Value == `"sync"` && !*nosync && !*selOnly {
 					is.Path.Value = strconv.Quote(psyncPath)
 					is.Name = ast.NewIdent("sync")
 				}
@@ -289,5 +378,5 @@ func main() {
 		fmt.Fprintln(os.Stderr, err)
 		os.Exit(2)
 	}
-	fmt.Printf("%s: %d pause points\n", base, count)
+	fmt.Printf("%s: %d pause points, %d owned selects\n", base, count, selCount)
 }
